@@ -392,6 +392,22 @@ class Gen:
             out.append(("return", ("ident", name)) if self.chance(0.5) else self.closing(0, t))
             self.scopes.pop()
             return ("binding_block", out), t
+        if self.chance(0.1):
+            # let v = ...; const c = v; [if (k)] { v = ... } return c;   -- a const initialised from a variable keeps the OLD value
+            self.scopes.append([])
+            v, c = self.fresh(), self.fresh()
+            e1 = self.typed(t, 1) if t in ("int", "uint") else self.expr(t, 1)
+            self.scopes[-1].append((v, t, "let", True))
+            e2 = self.typed(t, 1) if t in ("int", "uint") else self.expr(t, 1)
+            re_assign = ("expr", ("assign", ("ident", v), e2))
+            if self.chance(0.5):
+                re_assign = ("if", self.expr("bool", 1), ("block", [re_assign]), None)
+            self.scopes[-1].append((c, t, "const", True))
+            out = [("decl", "let", [(v, ANNOT[t] if (t == "uint" or self.chance(0.5)) else None, e1)]),
+                   ("decl", "const", [(c, None, ("ident", v))]), re_assign,
+                   ("return", ("ident", c)) if self.chance(0.6) else self.closing(0, t)]
+            self.scopes.pop()
+            return ("binding_block", out), t
         return ("binding_block", self.block(0, t, n=self.rng.randrange(0, 3))), t
 
     def handler_program(self):
